@@ -244,6 +244,12 @@ impl<T: Send> UnboundedAsyncReceiver<T> {
 
 impl<T: Send> Clone for UnboundedSyncReceiver<T> {
   fn clone(&self) -> Self {
+    // A handle that was closed no longer counts towards its side; neither does its clone.
+    if self.closed.load(Ordering::Acquire) {
+      let clone = UnboundedSyncReceiver::from_shared(Arc::clone(&self.shared));
+      clone.closed.store(true, Ordering::Release);
+      return clone;
+    }
     self.shared.add_receiver();
     UnboundedSyncReceiver::from_shared(Arc::clone(&self.shared))
   }
@@ -251,6 +257,12 @@ impl<T: Send> Clone for UnboundedSyncReceiver<T> {
 
 impl<T: Send> Clone for UnboundedAsyncReceiver<T> {
   fn clone(&self) -> Self {
+    // A handle that was closed no longer counts towards its side; neither does its clone.
+    if self.closed.load(Ordering::Acquire) {
+      let clone = UnboundedAsyncReceiver::from_shared(Arc::clone(&self.shared));
+      clone.closed.store(true, Ordering::Release);
+      return clone;
+    }
     self.shared.add_receiver();
     UnboundedAsyncReceiver::from_shared(Arc::clone(&self.shared))
   }
